@@ -907,6 +907,7 @@ def execute(case):
     prev_kind = "none"
     cited_products = 0
     kept_src, kept_cit = {}, {}
+    tainted_products = set()
     for i, (op, ev) in enumerate(zip(ops, observed)):
         k = op["op"]
         out = ev["outcome"]
@@ -930,7 +931,8 @@ def execute(case):
             if op["h"] in wdefs:
                 matched_at[op["h"]] = True
         elif k == "rewrap":
-            stale.discard(op["h"])
+            if rec_of(op["h"]) not in tainted_products:
+                stale.discard(op["h"])
             matched_at.pop(op["h"], None)
             probes["rewrap"] += 1
         elif k == "assemble" and not (isinstance(out, dict) and out.get("skip")):
@@ -986,8 +988,10 @@ def execute(case):
                 j = sum(1 for t in (info.get("trace") or []) if t.endswith("target_sequence")) if info else None
                 probes["missing-module"] += 1
             used_stale = any(h in stale for h in hs)
+            stats["assemblies"] += 1
             if used_stale:
                 probes["stale-wrapper-used"] += 1
+                stats["assemblies_through_stale_wrappers"] += 1
             states.add(h64("as", prev_kind, kind, cit, bool(fault), len(op["mods"])) & ((1 << 48) - 1))
             # --- purity is evaluated below for every op
             # --- refinement against the pristine reference (fault did not fire, no stale wrapper)
@@ -1041,14 +1045,26 @@ def execute(case):
                 kept_src[rid] = citations_of_snapshot(cat, out["product"])
                 kept_cit[rid] = cit
                 matched_at.pop("w:" + rid, None)
-                stale.discard("w:" + rid)
+                if used_stale or malformed:
+                    # made through wrappers that may hold pre-edit state: the reference re-creates it
+                    # with fresh wrappers, so nothing built on it is compared
+                    stale.add("w:" + rid)
+                    tainted_products.add(rid)
+                else:
+                    stale.discard("w:" + rid)
+                    tainted_products.discard(rid)
                 edits.append({k2: v2 for k2, v2 in op.items() if k2 not in ("id", "client")})
                 probes["product-kept"] += 1
         if ev["purity"] and k != "assemble":
             # the statement is about assemblies; a record that changed during a direct call on a
             # wrapper or a re-wrap is only counted (the run child has already re-baselined it)
             probes["input-changed-outside-an-assembly:" + k] += 1
+        elif ev["purity"] and not [d_ for d_ in ev["purity"] if d_["rec"] in set(rec_of(h_) for h_ in [op["vec"]] + list(op["mods"]))]:
+            # "every vector and module record passed to it": a bystander of the pool that changed
+            # (it can share objects with an input) is counted, not reported
+            probes["bystander-record-changed"] += 1
         elif ev["purity"]:
+            ev["purity"] = [d_ for d_ in ev["purity"] if d_["rec"] in set(rec_of(h_) for h_ in [op["vec"]] + list(op["mods"]))]
             d0 = ev["purity"][0]
             on = this_kind if k == "assemble" else k
             failures.append({"property": "C07", "clause": "C07.purity", "op": i, "op_id": op.get("id"), "signature": "on:%s" % on.split(":")[0] if not str(on).startswith("injected") else "on:injected",
@@ -1073,7 +1089,7 @@ def execute(case):
         "C10": probes.get("product-carries-citation", 0) > 0,
     }
     return {
-        "digest": log.digest(), "failures": failures[:8], "n_failures": len(failures), "stats": dict(stats), "probes": dict(probes),
+        "digest": log.digest(), "failures": [f_ for f_ in failures if f_["property"] == "C07"][:8] + [f_ for f_ in failures if f_["property"] == "C10"][:8], "n_failures": len(failures), "stats": dict(stats), "probes": dict(probes),
         "states": sorted(states), "nontrivial": nontrivial, "steps": len(ops),
         "schedule": h64("sched", tuple(op.get("client") for op in ops)) & ((1 << 48) - 1),
     }
@@ -1450,7 +1466,7 @@ def gen_case(spec):
     enabled_exc = g.sample(EXC_KINDS, g.randint(1, len(EXC_KINDS)))
     def rewrap_after(client, rec_id):
         # a caller who edited a record usually wraps it again before the next call
-        if g.random() < 0.6:
+        if g.random() < 0.9:
             related = {rec_id} | set(r_["id"] for r_ in cat["pool"] if (r_.get("derive") or {}).get("from") == rec_id)
             for w_ in cat["wrappers"]:
                 if w_["rec"] in related:
@@ -1469,6 +1485,8 @@ def gen_case(spec):
             pid, vec = g.choice(lv2["makers"])
             mods = [lv2["alts"].get(m_, m_) if g.random() < 0.5 else m_ for m_ in sc["chain"]]
             g.shuffle(mods)
+            for h_ in [vec] + mods:
+                add(client, {"op": "rewrap", "h": h_})   # the client builds the next level from freshly wrapped records
             call = {"op": "assemble", "vec": vec, "mods": mods, "out_name": pid, "keep": pid, "keep_cls": lv2["mod_cls"]}
             if g.random() < 0.7:
                 call["out_id"] = pid      # otherwise the default id "assembly" (shared by all such products)
@@ -1651,3 +1669,8 @@ def describe(prop):
 
 
 STATE_MEASURE = "distinct (previous call's outcome kind, this call's outcome kind, inputs carry citations?, fault armed?, number of modules) tuples"
+
+
+EXPECTED_STATS = {"C07": ["fault_fired:boundary", "fault_fired:line", "fault_fired_at:target_sequence:before", "fault_fired_at:target_sequence:after",
+                          "fault_fired_at:overhang_start:before", "fault_fired_at:overhang_end:after", "fault_fired_exc:KeyboardInterrupt", "reference_executions"],
+                  "C10": ["stripped_reference_executions", "reference_executions"]}
